@@ -588,6 +588,7 @@ def std_driver(name, K, extra_adv, nlo, nhi, ret_type="int"):
 	rt.Assume(n >= %(nlo)d && n <= %(nhi)d)
 	it := %(name)s(a, b, n, g1, g2, g3)
 	rt.Emit(rt.CREATED, 0)
+	%(peek)s // reading before the first advance runs nothing
 	extra := %(extra)d
 	for k := 0; k < %(K)d; k++ {
 		rt.Emit(rt.ADV_BEGIN, k)
@@ -604,7 +605,7 @@ def std_driver(name, K, extra_adv, nlo, nhi, ret_type="int"):
 		%(emit)s
 	}
 	rt.Emit(rt.END, 0)
-}""" % {"name": name, "K": K, "extra": extra_adv, "nlo": nlo, "nhi": nhi, "emit": emit}
+}""" % {"name": name, "K": K, "extra": extra_adv, "nlo": nlo, "nhi": nhi, "emit": emit, "peek": emit.replace("rt.YIELD", "rt.RESULT")}
 
 
 # ---------------------------------------------------------------------------------------------
